@@ -100,7 +100,7 @@ func c26Seeds() []elfgen.File {
 
 func init() {
 	checks["C26"] = eng.Check{
-		Rule:        "the real mltwist binary (built from the working tree) run as a process with stdin=/dev/null under a 4 GiB address-space limit and a 300 s hang guard on: (a) ELF files with RISC-V payloads over {valid code, undecodable word, truncated word, jump outside the code, misaligned jumps into the first / a middle / the last instruction of a block, entry at every 2-byte offset of the code and outside it, no executable section, no loadable segment, overlapping segments} x types; (b) every truncation length and every single-byte substitution {00, ff, ~b} of every header byte (ELF header, program headers, section headers) of two valid seed files (thorough: 20 substitute values for EVERY byte of the files); (c) memsz in {2^31, 2^36, 2^62, 2^63, 2^64-1}, filesz > file, section/segment addresses at the top of the address space; (d) argument vectors of length 0, 2, 3, a missing file, a directory, an empty file; plus the two seed files under a pseudo-terminal (UI must be entered and 'q' must exit 0). Oracle: exit status 1 with a 'mltwist: ' message (or UI entered), never a Go panic/fatal error, signal or timeout. Non-trivial = runs ending with the error exit.",
+		Rule:        "the real mltwist binary (built from the working tree) run as a process with stdin=/dev/null under a 4 GiB address-space limit and a 300 s hang guard on: (a) ELF files with RISC-V payloads over {valid code, undecodable word, truncated word, jump outside the code, misaligned jumps into the first / a middle / the last instruction of a block, entry at every 2-byte offset of the code and outside it, no executable section, no loadable segment, overlapping segments} x types; (b) every truncation length and every single-byte substitution {00, ff, ~b} of every header byte (ELF header, program headers, section headers) of two valid seed files (thorough: 20 substitute values for EVERY byte of the files); (c) memsz in {2^22, 2^30+1, 2^36, 2^62, 2^63, 2^64-1, 2^64-8} on a regular segment, on a segment without file bytes (alone / next to regular ones) and with the file size claimed equally large, section/segment addresses at the top of the address space; (d) argument vectors of length 0, 2, 3, a missing file, a directory, an empty file; plus the two seed files under a pseudo-terminal (UI must be entered and 'q' must exit 0). Oracle: exit status 1 with a 'mltwist: ' message (or UI entered), never a Go panic/fatal error, signal or timeout. Non-trivial = runs ending with the error exit.",
 		Assumptions: []string{"with stdin=/dev/null a file that loads ends in 'cannot get terminal size' (exit 1), which counts as a regular error exit; the pty runs confirm that valid files do enter the UI"},
 		Run: func(r *eng.Run) {
 			dir, err := os.MkdirTemp("", "vc26")
@@ -169,6 +169,17 @@ func init() {
 				h := s0
 				h.Progs = []elfgen.Prog{{Type: elfgen.PT_LOAD, Vaddr: 0x1000, Data: s0.Progs[0].Data, Memsz: ms}}
 				add(fmt.Sprintf("memsz=%#x", ms), "huge-memsz", h.Bytes())
+				// the same size on a segment without file bytes (bss only), alone and next to the regular one
+				hb := s0
+				hb.Progs = []elfgen.Prog{{Type: elfgen.PT_LOAD, Vaddr: 0x100000, Memsz: ms}}
+				add(fmt.Sprintf("bss-only segment with memsz=%#x", ms), "huge-memsz", hb.Bytes())
+				hb2 := s0
+				hb2.Progs = append(append([]elfgen.Prog{}, s0.Progs...), elfgen.Prog{Type: elfgen.PT_LOAD, Vaddr: 0x100000, Memsz: ms})
+				add(fmt.Sprintf("regular segments plus a bss-only segment with memsz=%#x", ms), "huge-memsz", hb2.Bytes())
+				// ... and with a file extent claimed beyond the file
+				hc := s0
+				hc.Progs = []elfgen.Prog{{Type: elfgen.PT_LOAD, Vaddr: 0x1000, Data: s0.Progs[0].Data, Memsz: ms, Claim: ms - uint64(len(s0.Progs[0].Data))}}
+				add(fmt.Sprintf("filesz=memsz=%#x beyond the file", ms), "huge-memsz", hc.Bytes())
 				h2 := s0
 				h2.Progs = []elfgen.Prog{{Type: elfgen.PT_LOAD, Vaddr: ^uint64(0) - 3, Data: []byte{1, 2, 3, 4}, Memsz: 8}}
 				add("segment wrapping the top of the address space", "top", h2.Bytes())
@@ -240,6 +251,7 @@ func init() {
 				cases = append(cases, c26Case{What: fmt.Sprintf("seed %d under a pty", si), Kind: "file", File: hex.EncodeToString(s.Bytes()), PTY: true, Class: "seed"})
 			}
 			r.Note("process runs=%d", len(cases))
+			r.ItemLimit = -1 // every process run has its own 300 s hang guard
 			r.Par(len(cases), func(i int) {
 				f, out := c26Run(cases[i])
 				r.Eval(1)
